@@ -4,8 +4,8 @@ import "gosym/sym"
 
 func init() {
 	Register(&Spec{
-		ID:    "C02",
-		Level: "model_checking",
+		ID:          "C02",
+		Level:       "model_checking",
 		Explanation: "composition of five solver-decided parts over the real code. L1 (bit-precise IEEE-754, every float32 bit pattern): NormalisedTo8/9/16Bit return 0 for x<=0 (incl. -0, -inf), the maximum for x>=1 (incl. +inf), never exceed the maximum for any input incl. NaN (so the table index is in range), and cannot panic. M (reals with rounding-error variables + monotonicity of IEEE rounding + integer truncation): 0<a<=b<1 implies N(a)<=N(b); with L1 this gives monotonicity for all pairs. L2 (reals with rounding-error variables): |N(x)-S*x| <= 0.5+s_N on (0,1). W (bit-precise, tables as uninterpreted functions refined on demand): To8Bit(x)=LUT8[N9(x)], To16Bit(x)=LUT16[N16(x)] on the sync.Once path and the fast path, tables have 512/65536 entries, and ToNRGBA/ToRGBA/ToRGBA64 of all four spaces apply the right encoder to the right (premultiplied) channel, Display P3 using srgb's. T (ground, exhaustive, exact integer arithmetic): every entry of the six encode tables built by the executor is within 0.5+s_T codes of max*OETF(k/S) for the published OETFs, end points exact, non-decreasing. L1+M+L2+T+W give the property as formalised in DESIGN 3.1",
 		Bounds: func(tier string) map[string]interface{} {
 			return map[string]interface{}{"inputs": "all float32 values (L1, W: symbolic (_ FloatingPoint 8 24)); (0,1) for M and L2 as reals", "tables": "all 512 + 65536 entries x 3 curves", "slack": "s_N = S*2^-23 + 2^-20, s_T = max*2^-24 + max*2^-23 + 2^-10 (fixed a priori, DESIGN 3.1)", "outside": "float->int conversion of NaN/out-of-range values is modelled as gc/amd64 does it (CVTTSS2SL/SQ integer indefinite); no FMA contraction"}
